@@ -1,27 +1,34 @@
-/* Include BEFORE "mir.c" in mini-init harnesses.
-   1. constant hash (h_hash_const.h) unless H_REAL_HASH;
-   2. caps the INITIAL capacities that mir.c hard-codes (HTAB_CREATE(...,100/512/1000,...),
-      VARR_CREATE(...,50/256/512,...)): tables start small and grow through the REAL growth code on
-      demand.  Behaviour is unchanged (capacity is not observable), but CBMC arrays stay small.
-      Listed as an assumption ("initial container capacities capped"). */
+/* Include BEFORE "mir.c" in mini-init harnesses (DESIGN.md section 1).  In CBMC mode it sets up:
+   1. h_alloc_native.h: MIR_malloc/realloc/free become call-site malloc/realloc/free, so that heap
+      objects get their real struct/array TYPES (pointers stored in heap structs stay precise);
+   2. h_hash_const.h: constant hash (unless H_REAL_HASH);
+   3. h_htab_model.h: the abstract-map model of mir-htab.h (unless H_REAL_HTAB) - justified by C19;
+   4. capped INITIAL capacities of VARRs that mir.c hard-codes (they grow through the real code).
+   The native REPLAY build uses the real headers throughout (real HTAB, real hash, ledger allocator). */
 #ifndef VERIF_MINI_MIR_PRE_H
 #define VERIF_MINI_MIR_PRE_H
+#if H_CBMC
+#ifndef H_SLOT_ALLOC
+#include "h_alloc_native.h"
+#endif
 #ifndef H_REAL_HASH
 #include "h_hash_const.h"
 #endif
+#ifndef H_REAL_HTAB
+#include "h_htab_model.h"
+#endif
 #include "mir-varr.h"
+#ifdef H_REAL_HTAB
 #include "mir-htab.h"
-#ifndef H_HTAB_INIT_CAP
-#define H_HTAB_INIT_CAP 2
+#undef HTAB_CREATE
+#undef HTAB_CREATE_WITH_FREE_FUNC
+#define HTAB_CREATE(T, V, M, S, H, EQ, A) (HTAB_OP (T, create) (&(V), M, (S) > 2 ? 2 : (S), H, EQ, NULL, A))
+#define HTAB_CREATE_WITH_FREE_FUNC(T, V, M, S, H, EQ, F, A) (HTAB_OP (T, create) (&(V), M, (S) > 2 ? 2 : (S), H, EQ, F, A))
 #endif
 #ifndef H_VARR_INIT_CAP
 #define H_VARR_INIT_CAP 8
 #endif
-#undef HTAB_CREATE
-#undef HTAB_CREATE_WITH_FREE_FUNC
-#define HTAB_CREATE(T, V, M, S, H, EQ, A) (HTAB_OP (T, create) (&(V), M, (S) > H_HTAB_INIT_CAP ? H_HTAB_INIT_CAP : (S), H, EQ, NULL, A))
-#define HTAB_CREATE_WITH_FREE_FUNC(T, V, M, S, H, EQ, F, A) \
-  (HTAB_OP (T, create) (&(V), M, (S) > H_HTAB_INIT_CAP ? H_HTAB_INIT_CAP : (S), H, EQ, F, A))
 #undef VARR_CREATE
 #define VARR_CREATE(T, V, A, L) (VARR_OP (T, create) (&(V), A, (L) == 0 || (L) > H_VARR_INIT_CAP ? H_VARR_INIT_CAP : (L)))
+#endif
 #endif
